@@ -325,6 +325,17 @@ func (m *Manager) downloadAll(deps []*chart.Dependency) error {
 
 		fmt.Fprintf(m.Out, "Downloading %s from repo %s\n", dep.Name, dep.Repository)
 
+		// Only pass the repository's user/pass on when the user has said to or
+		// when the chart is located on the repository's own scheme and host
+		// (the host returned from url.Parse contains the port if present).
+		if !passcredentialsall && (username != "" || password != "") {
+			u1, err1 := url.Parse(dep.Repository)
+			u2, err2 := url.Parse(churl)
+			if err1 != nil || err2 != nil || u1.Scheme != u2.Scheme || u1.Host != u2.Host {
+				username, password = "", ""
+			}
+		}
+
 		dl := ChartDownloader{
 			Out:              m.Out,
 			Verify:           m.Verify,
